@@ -88,7 +88,7 @@ Definition ctx_program : program :=
 (* sylvia/src/multitest.rs: the proxies that send execute / migrate messages to the chain, and downcast_error *)
 Definition mt_program : program :=
   [ {| fn_name := "Proxy::new"; fn_params := ["contract_addr"; "app"]; fn_consts := [];
-     fn_body := (EBlock [STail (ERecord "Proxy" [("contract_addr", (EVar "contract_addr")); ("app", (EVar "app")); ("_phantom", (ECon "marker::PhantomData" []))] None)]) |};
+     fn_body := (EBlock [STail (ERecord "Proxy" [("contract_addr", (EVar "contract_addr")); ("app", (EVar "app")); ("_phantom", (ECon "PhantomData" []))] None)]) |};
     {| fn_name := "App::new"; fn_params := ["app"]; fn_consts := [];
      fn_body := (EBlock [STail (ERecord "App" [("app", (ECall "into" [(EVar "app")]))] None)]) |};
     {| fn_name := "App::app_mut"; fn_params := ["self"]; fn_consts := [];
@@ -105,6 +105,21 @@ Definition mt_program : program :=
      fn_body := (EBlock [STail (EMatch (ECall "extern::migrate_contract" [(ECall "App::app_mut" [(EField (EVar "self") "app")]); (ECall "into" [(EVar "sender")]); (ECall "into" [(EField (EVar "self") "contract_addr")]); (EField (EVar "self") "msg"); (EVar "new_code_id")]) [(PCon "Ok" [PVar "map_err_v"], ECon "Ok" [EVar "map_err_v"]); (PCon "Err" [PVar "map_err_e"], ECon "Err" [ECall "downcast_error" [EVar "map_err_e"]])])]) |};
     {| fn_name := "downcast_error"; fn_params := ["err"]; fn_consts := [];
      fn_body := (EBlock [STail (EIf (ECall "anyhow::is" [(EVar "err"); EConst (VStr "Error")]) (EBlock [STail (ECall "unwrap" [(ECall "anyhow::downcast" [(EVar "err"); EConst (VStr "Error")])])]) (EIf (ECall "anyhow::is" [(EVar "err"); EConst (VStr "StdError")]) (EBlock [STail (ECon "Into::into" [(ECall "unwrap" [(ECall "anyhow::downcast" [(EVar "err"); EConst (VStr "StdError")])])])]) (EBlock [STail (ECon "Into::into" [(ECon "StdError::GenericErr" [(ECall "to_string" [(EVar "err")])])])])))]) |} ].
+
+(* GENERATED code, for every contract: the instantiate proxy of the multitest helpers (templates of contract/mt.rs) *)
+Definition mtgen_fns : program :=
+  [ {| fn_name := "InstantiateProxy::with_funds"; fn_params := ["self"; "funds"]; fn_consts := [];
+     fn_body := (EBlock [STail (ERecord "InstantiateProxy" [("funds", (EVar "funds"))] (Some (EVar "self")))]) |};
+    {| fn_name := "InstantiateProxy::with_label"; fn_params := ["self"; "label"]; fn_consts := [];
+     fn_body := (EBlock [STail (ERecord "InstantiateProxy" [("label", (EVar "label"))] (Some (EVar "self")))]) |};
+    {| fn_name := "InstantiateProxy::with_admin"; fn_params := ["self"; "admin"]; fn_consts := [];
+     fn_body := (EBlock [SLet (PVar "admin") (EMatch (ECall "into_option" [(EVar "admin")]) [(PCon "Ok" [PVar "hof_v1"], ECon "Ok" [EVar "hof_v1"]); (PCon "Err" [PVar "hof_v1"], ECon "Err" [EVar "hof_v1"]); (PCon "Some" [PVar "hof_v1"], ECon "Some" [EVar "hof_v1"]); (PCon "None" [], ECon "None" [])]); STail (ERecord "InstantiateProxy" [("admin", (EVar "admin"))] (Some (EVar "self")))]) |};
+    {| fn_name := "InstantiateProxy::with_salt"; fn_params := ["self"; "salt"]; fn_consts := [];
+     fn_body := (EBlock [SLet (PVar "salt") (ECall "into_option" [(EVar "salt")]); STail (ERecord "InstantiateProxy" [("salt", (EVar "salt"))] (Some (EVar "self")))]) |};
+    {| fn_name := "InstantiateProxy::call"; fn_params := ["self"; "sender"]; fn_consts := [];
+     fn_body := (EBlock [SLet (PRec "InstantiateProxy" [("code_id", (PVar "code_id")); ("funds", (PVar "funds")); ("label", (PVar "label")); ("admin", (PVar "admin")); ("salt", (PVar "salt")); ("msg", (PVar "msg"))]) (EVar "self"); STail (EMatch (EVar "salt") [((PCon "Some" [(PVar "salt")]), (EBlock [SLet (PVar "msg") (EMatch (EMatch (ECon "Ok" [ECon "to_json_binary" [(EVar "msg")]]) [(PCon "Ok" [PVar "hof_v1"], ECon "Ok" [EVar "hof_v1"]); (PCon "Err" [PVar "hof_v1"], ECon "Err" [ECon "Into::into" [EVar "hof_v1"]])]) [(PCon "Ok" [PVar "try_v"], EVar "try_v"); (PCon "Err" [PVar "try_e"], EReturn (ECon "Err" [ECon "From::from" [EVar "try_e"]]))]); SLet (PVar "sender") (ECall "into" [(EVar "sender")]); SLet (PVar "msg") (ERecord "WasmMsg::Instantiate2" [("admin", (EVar "admin")); ("code_id", (EField (EVar "code_id") "code_id")); ("msg", (EVar "msg")); ("funds", (ECall "into" [(EVar "funds")])); ("label", (ECall "into" [(EVar "label")])); ("salt", (ECon "Into::into" [(EVar "salt")]))] None); SLet (PVar "app_response") (EMatch (EMatch (ECall "extern::execute" [(ECall "App::app_mut" [(EField (EVar "code_id") "app")]); (ECall "into" [(EVar "sender")]); (ECon "Into::into" [(EVar "msg")])]) [(PCon "Ok" [PVar "hof_v2"], ECon "Ok" [EVar "hof_v2"]); (PCon "Err" [PVar "hof_v2"], ECon "Err" [ECall "downcast_error" [EVar "hof_v2"]])]) [(PCon "Ok" [PVar "try_v"], EVar "try_v"); (PCon "Err" [PVar "try_e"], EReturn (ECon "Err" [ECon "From::from" [EVar "try_e"]]))]); STail (EMatch (EMatch (ECall "extern::parse_instantiate_response_data" [(ECon "Into::into" [(ECall "unwrap" [(EField (EVar "app_response") "data")])])]) [(PCon "Ok" [PVar "hof_v4"], ECon "Ok" [EVar "hof_v4"]); (PCon "Err" [PVar "hof_v4"], ECon "Err" [EBlock [SLet (PVar "err") (EVar "hof_v4"); STail (ECon "Into::into" [(ECon "StdError::GenericErr" [(ECall "to_string" [(EVar "err")])])])]])]) [(PCon "Ok" [PVar "hof_v3"], ECon "Ok" [EBlock [SLet (PVar "data") (EVar "hof_v3"); STail (ERecord "Proxy" [("contract_addr", (ECall "into" [(EField (EVar "data") "contract_address")])); ("app", (EField (EVar "code_id") "app")); ("_phantom", (ECon "PhantomData" []))] None)]]); (PCon "Err" [PVar "hof_v3"], ECon "Err" [EVar "hof_v3"]); (PCon "Some" [PVar "hof_v3"], ECon "Some" [EBlock [SLet (PVar "data") (EVar "hof_v3"); STail (ERecord "Proxy" [("contract_addr", (ECall "into" [(EField (EVar "data") "contract_address")])); ("app", (EField (EVar "code_id") "app")); ("_phantom", (ECon "PhantomData" []))] None)]]); (PCon "None" [], ECon "None" [])])])); ((PCon "None" []), (EMatch (EMatch (ECall "extern::instantiate_contract" [(ECall "App::app_mut" [(EField (EVar "code_id") "app")]); (EField (EVar "code_id") "code_id"); (ECall "into" [(EVar "sender")]); (EVar "msg"); (EVar "funds"); (EVar "label"); (EVar "admin")]) [(PCon "Ok" [PVar "hof_v6"], ECon "Ok" [EVar "hof_v6"]); (PCon "Err" [PVar "hof_v6"], ECon "Err" [ECall "downcast_error" [EVar "hof_v6"]])]) [(PCon "Ok" [PVar "hof_v5"], ECon "Ok" [EBlock [SLet (PVar "addr") (EVar "hof_v5"); STail (ERecord "Proxy" [("contract_addr", (EVar "addr")); ("app", (EField (EVar "code_id") "app")); ("_phantom", (ECon "PhantomData" []))] None)]]); (PCon "Err" [PVar "hof_v5"], ECon "Err" [EVar "hof_v5"]); (PCon "Some" [PVar "hof_v5"], ECon "Some" [EBlock [SLet (PVar "addr") (EVar "hof_v5"); STail (ERecord "Proxy" [("contract_addr", (EVar "addr")); ("app", (EField (EVar "code_id") "app")); ("_phantom", (ECon "PhantomData" []))] None)]]); (PCon "None" [], ECon "None" [])]))])]) |};
+    {| fn_name := "CodeId::instantiate"; fn_params := ["self"]; fn_consts := [];
+     fn_body := (EBlock [SLet (PVar "msg") (ERecord "InstantiateMsg" [] None); STail (ERecord "InstantiateProxy" [("code_id", (EVar "self")); ("funds", (EArr [])); ("label", (EConst (VStr "Contract"))); ("admin", (ECon "None" [])); ("salt", (ECon "None" [])); ("msg", (EVar "msg"))] None)]) |} ].
 
 (* sylvia/src/into_response.rs: IntoMsg / IntoResponse; `enabled_features` = the cargo features switched on *)
 Definition resp_program (enabled_features : list string) : program :=
